@@ -144,7 +144,7 @@ def find_contracts(text):
             if not m2:
                 break
             e = match_paren(text, m2.end() - 1)
-            tags = re.findall(r'\bC\d\d\b', tagtxt)
+            tags = re.findall(r'\bC\d\d\b|\bUF\b', tagtxt)
             line = text.count('\n', 0, k) + 1
             clauses.append((m2.group(1), text[m2.end():e].strip(), tags, line, tagtxt.strip()))
             k = e + 1
@@ -202,7 +202,7 @@ def sub_fresh(e, mode):
 def sub_ptreq(e):
     """PTR_EQ(a, b) in an asserted position -> ((a) == (b))"""
     while True:
-        m = re.search(r'\bPTR_EQ\s*\(', e)
+        m = re.search(r'\b(?:PTR_EQ|SET_EQ)\s*\(', e)
         if not m:
             return e
         q = match_paren(e, m.end() - 1)
@@ -250,7 +250,7 @@ def assume_stmts(e):
             continue
         if 'MODEB_FRESH_ASSUME' in cj and len(split_top_op(cj, '==>')) == 1 and len(split_top_op(cj, '&&')) == 1:
             raise SystemExit('c2h: IS_FRESH must be a top-level conjunct (possibly under one implication): ' + cj)
-        m = re.match(r'^PTR_EQ\s*\((.*)\)$', cj, re.S)
+        m = re.match(r'^(?:PTR_EQ|SET_EQ)\s*\((.*)\)$', cj, re.S)
         if m and match_paren(cj, cj.index('(')) == len(cj) - 1:
             a = split_top(m.group(1))
             if len(a) != 2:
@@ -259,7 +259,7 @@ def assume_stmts(e):
         elif len(split_top_op(cj, '==>')) == 2 or (len(split_top_op(cj, '&&')) > 1):
             out.extend(assume_stmts(cj))
         else:
-            if 'PTR_EQ' in cj:
+            if 'PTR_EQ' in cj or 'SET_EQ' in cj:
                 raise SystemExit('c2h: PTR_EQ must be a top-level conjunct of an assumed clause: ' + cj[:200])
             out.append('__CPROVER_assume(%s);' % cj)
     return out
@@ -282,13 +282,14 @@ def gen_stub(c, table):
     # assigns: evaluate target addresses in the pre-state, then havoc
     tg = []
     for _, e, _, _, _ in asg:
-        for t in split_top(e):
-            if not t: continue
+        for grp in split_top(e, ';'):
             cond = None
-            m = re.match(r'^(.*?):(?!:)(.*)$', t)
-            if m and '?' not in m.group(1):
-                cond, t = m.group(1).strip(), m.group(2).strip()
-            tg.append((cond, t))
+            m = re.match(r'^([^?]*?[^:]):(?!:)(.*)$', grp, re.S)
+            if m:
+                cond, grp = m.group(1).strip(), m.group(2).strip()
+            for t in split_top(grp):
+                if t:
+                    tg.append((cond, t))
     hav = []
     for i, (cond, t) in enumerate(tg):
         m = re.match(r'^__CPROVER_object_whole\s*\((.*)\)$', t)
@@ -316,6 +317,7 @@ def gen_stub(c, table):
     return '\n'.join(L)
 
 KNOWN = []
+UF_MODE = ['all']   # all | skip (omit clauses tagged UF) | only (emit only clauses tagged UF)
 
 def gen_harness(c, table):
     ret, name, params = c['ret'], c['name'], c['params']
@@ -345,7 +347,11 @@ def gen_harness(c, table):
     L.append('  if (__exc) __CPROVER_assert(0, "CANARY %s.returns.exceptional"); else __CPROVER_assert(0, "CANARY %s.returns.normal");' % (name, name))
     for i, (_, e, tags, line, comment) in enumerate(ens, 1):
         cid = '%s.ensures.%d' % (name, i)
-        table.append(dict(id=cid, kind='ensures', function=name, tags=tags, text=e, line=line, comment=comment))
+        isuf = 'UF' in tags
+        tags = [t for t in tags if t != 'UF']
+        if (UF_MODE[0] == 'skip' and isuf) or (UF_MODE[0] == 'only' and not isuf):
+            continue
+        table.append(dict(id=cid, kind='ensures', function=name, tags=tags, text=e, line=line, comment=comment, uf=isuf))
         e2 = sub_ptreq(sub_fresh(sub_olds(e, ot), 'POST').replace('__CPROVER_return_value', '__ret'))
         tg = ''.join('[%s]' % t for t in tags)
         e = e[:300]
@@ -394,8 +400,10 @@ def main():
     ap.add_argument('--replace', action='append', default=[])
     ap.add_argument('--out', required=True)
     ap.add_argument('--known')
+    ap.add_argument('--uf-mode', default='all')
     ap.add_argument('files', nargs='+')
     a = ap.parse_args()
+    UF_MODE[0] = a.uf_mode
     if a.known:
         KNOWN.extend(json.load(open(a.known)))
     os.makedirs(a.out, exist_ok=True)
